@@ -43,6 +43,23 @@ def through(path, pol):
     h = storelib.make_backend(path)
     try:
         h.storage.add(pol)
+        # a sibling with the same content under another uid is stored, read and modified IN PLACE (context keys,
+        # attribute dictionaries): what is read for `pol` afterwards must not be affected by that
+        import copy
+        from vakt.rules.logic import Neither
+        sib = copy.deepcopy(pol)
+        object.__setattr__(sib, 'uid', 'sibling-of-%s' % pol.uid)
+        try:
+            h.storage.add(sib)
+            for got in (h.storage.get(sib.uid), h.storage.get(pol.uid)):
+                if got is not None:
+                    got.context['poked'] = Neither()
+                    for f in ('subjects', 'resources', 'actions'):
+                        for e in getattr(got, f):
+                            if isinstance(e, dict):
+                                e['poked'] = Neither()
+        except Exception:  # noqa
+            pass
         return h.storage.get(pol.uid)
     finally:
         h.close()
